@@ -19,12 +19,13 @@ def _match_tuples(text, marker):
     """Yield the text of every <<"marker", ...>> tuple printed by PrintT (bracket matching;
     output of several workers may interleave lines but a tuple is printed atomically)."""
     out = []
-    pat = '<<"%s"' % marker
+    pat = re.compile(r'<<\s*"%s"' % re.escape(marker))
     i = 0
     while True:
-        i = text.find(pat, i)
-        if i < 0:
+        mm = pat.search(text, i)
+        if not mm:
             break
+        i = mm.start()
         depth, j, instr = 0, i, False
         while j < len(text):
             ch = text[j]
